@@ -24,6 +24,7 @@ import (
 type Atom struct {
 	Path string
 	Sort string // Int | Bool
+	Ref  bool   // the atom is a reference (pointer, map, chan, slice backing): allocated objects only
 }
 
 func (w *World) isOpaqueNamed(t types.Type) bool {
@@ -54,22 +55,22 @@ func joinPath(prefix, p string) string {
 // flatten returns the atoms of a value of type t.
 func (w *World) flatten(t types.Type) []Atom {
 	if w.isOpaqueNamed(t) {
-		return []Atom{{"", "Int"}}
+		return []Atom{{"", "Int", false}}
 	}
 	switch u := t.Underlying().(type) {
 	case *types.Basic:
 		if u.Info()&types.IsBoolean != 0 {
-			return []Atom{{"", "Bool"}}
+			return []Atom{{"", "Bool", false}}
 		}
-		return []Atom{{"", "Int"}}
+		return []Atom{{"", "Int", false}}
 	case *types.Slice:
-		return []Atom{{"#base", "Int"}, {"#off", "Int"}, {"#len", "Int"}, {"#cap", "Int"}}
+		return []Atom{{"#base", "Int", true}, {"#off", "Int", false}, {"#len", "Int", false}, {"#cap", "Int", false}}
 	case *types.Struct:
 		var out []Atom
 		for i := 0; i < u.NumFields(); i++ {
 			f := u.Field(i)
 			for _, a := range w.flatten(f.Type()) {
-				out = append(out, Atom{joinPath(f.Name(), a.Path), a.Sort})
+				out = append(out, Atom{joinPath(f.Name(), a.Path), a.Sort, a.Ref})
 			}
 		}
 		if len(out) == 0 {
@@ -80,14 +81,16 @@ func (w *World) flatten(t types.Type) []Atom {
 		var out []Atom
 		for i := 0; i < u.Len(); i++ {
 			for _, a := range w.flatten(u.At(i).Type()) {
-				out = append(out, Atom{joinPath(fmt.Sprintf("%d", i), a.Path), a.Sort})
+				out = append(out, Atom{joinPath(fmt.Sprintf("%d", i), a.Path), a.Sort, a.Ref})
 			}
 		}
 		return out
 	case *types.Array:
-		return []Atom{{"", "Int"}} // arrays as values are opaque
-	default: // pointer, map, chan, signature, interface
-		return []Atom{{"", "Int"}}
+		return []Atom{{"", "Int", false}} // arrays as values are opaque
+	case *types.Pointer, *types.Map, *types.Chan:
+		return []Atom{{"", "Int", true}}
+	default: // signature, interface
+		return []Atom{{"", "Int", false}}
 	}
 }
 
@@ -116,6 +119,7 @@ func structOf(t types.Type) (*types.Struct, bool) {
 type Comp struct {
 	Name string
 	Sort string
+	Ref  bool
 }
 
 // cellComps returns the components holding a value of type t stored at an address,
@@ -124,13 +128,13 @@ func (w *World) cellComps(t types.Type) []Comp {
 	if _, ok := structOf(t); ok && !w.isOpaqueNamed(t) {
 		var out []Comp
 		for _, a := range w.flatten(t) {
-			out = append(out, Comp{"F." + w.typeKey(t) + "." + a.Path, "(Array Int " + a.Sort + ")"})
+			out = append(out, Comp{"F." + w.typeKey(t) + "." + a.Path, "(Array Int " + a.Sort + ")", a.Ref})
 		}
 		return out
 	}
 	var out []Comp
 	for _, a := range w.flatten(t) {
-		out = append(out, Comp{"M." + w.typeKey(t) + a.Path, "(Array Int " + a.Sort + ")"})
+		out = append(out, Comp{"M." + w.typeKey(t) + a.Path, "(Array Int " + a.Sort + ")", a.Ref})
 	}
 	return out
 }
@@ -139,20 +143,20 @@ func (w *World) cellComps(t types.Type) []Comp {
 func (w *World) fieldComps(s types.Type, prefix string, ft types.Type) []Comp {
 	var out []Comp
 	for _, a := range w.flatten(ft) {
-		out = append(out, Comp{"F." + w.typeKey(s) + "." + joinPath(prefix, a.Path), "(Array Int " + a.Sort + ")"})
+		out = append(out, Comp{"F." + w.typeKey(s) + "." + joinPath(prefix, a.Path), "(Array Int " + a.Sort + ")", a.Ref})
 	}
 	return out
 }
 
 func (w *World) mapDomComp(mt types.Type) Comp {
-	return Comp{"MD." + w.typeKey(mt), "(Array Int (Array Int Bool))"}
+	return Comp{"MD." + w.typeKey(mt), "(Array Int (Array Int Bool))", false}
 }
 
 func (w *World) mapValComps(mt types.Type) []Comp {
 	m := mt.Underlying().(*types.Map)
 	var out []Comp
 	for _, a := range w.flatten(m.Elem()) {
-		out = append(out, Comp{"MV." + w.typeKey(mt) + "~" + a.Path, "(Array Int (Array Int " + a.Sort + "))"})
+		out = append(out, Comp{"MV." + w.typeKey(mt) + "~" + a.Path, "(Array Int (Array Int " + a.Sort + "))", a.Ref})
 	}
 	return out
 }
@@ -182,6 +186,8 @@ type Val struct {
 	Loc   *Loc
 	Tuple []*Val
 	Clos  *closureInfo
+	GhostElem types.Type // for ghost arrays (T == nil): type of the elements
+	AutoDeref bool       // captured variable: the value is the address of the variable's cell; specs see its content
 }
 
 func (v *Val) one() string {
